@@ -1,6 +1,37 @@
 package bt
 
-import "encoding/binary"
+import (
+	"encoding/binary"
+	"io"
+)
+
+// readChunkSize is the largest single allocation made while reading a
+// length-prefixed field whose length comes from untrusted input.
+const readChunkSize = 4096
+
+// readBytes reads exactly n bytes from r. The buffer grows as data arrives, so
+// memory use is bounded by the bytes actually supplied rather than by n, which
+// is typically a length field taken from untrusted input.
+func readBytes(r io.Reader, n uint64) ([]byte, int, error) {
+	first := n
+	if first > readChunkSize {
+		first = readChunkSize
+	}
+	buf := make([]byte, 0, first)
+	for uint64(len(buf)) < n {
+		k := n - uint64(len(buf))
+		if k > readChunkSize {
+			k = readChunkSize
+		}
+		start := len(buf)
+		buf = append(buf, make([]byte, k)...)
+		m, err := io.ReadFull(r, buf[start:])
+		if err != nil {
+			return buf[:start+m], start + m, err
+		}
+	}
+	return buf, len(buf), nil
+}
 
 // ReverseBytes reverses the bytes (little endian/big endian).
 // This is used when computing merkle trees in Bitcoin, for example.
